@@ -131,6 +131,31 @@ def run(prog, rep, tier, cfg):
     rs = [c.bb for c in RL.calls if (c.callee or '').endswith('::set_root') and has_atom(prog.slicer.operand(RL, c.args[1]), 'F:TransientData.transient_data_state')]
     X.guard('K6b', 'reload:transient-only-same-lifespan', RL, rs, m_rel('eq', ['F:TransientData.transient_data_lifespan'], ['F:System.current_transient_data_lifespan'], True, a_forbid=['F:TransientDataLifespan.origin', 'F:TransientDataLifespan.nonce'], b_forbid=['F:TransientDataLifespan.origin', 'F:TransientDataLifespan.nonce']),
             'reload keeps transient data only of the same lifespan')
+    # reload: on every path that re-roots the persistent slots the transient slots were re-rooted or cleared first
+    main_rr = [c.bb for c in RL.calls if (c.callee or '').endswith('::set_root') and has_atom(prog.slicer.operand(RL, c.args[1]), 'F:State.contract_state')]
+    tr_upd = [c.bb for c in RL.calls if ((c.callee or '').endswith('::set_root') or (c.callee or '').endswith('::clear')) and X.updates_field(c, 'System', 'transient_slots')]
+    rep.need('K5', 'reload:transient-update-sites', len(main_rr) == 1 and len(tr_upd) == 2, 'reload re-roots the persistent slots once and either re-roots or clears the transient slots (found %d / %d sites)' % (len(main_rr), len(tr_upd)), X.loc(RL))
+    X.precedes('K7', 'reload:transient-always-refreshed', RL, tr_upd, main_rr, 'a reload never keeps the in-memory transient slots: they are re-rooted (same lifespan) or cleared (otherwise, including when the stored state has none)')
+    # liveness of a contract is decided only by is_dead (tombstone of *another* top-level message); nothing else may branch on a tombstone
+    bad = []
+    for f in prog.fns.values():
+        if f.crate != CR or f.kind in ('promoted', 'const') or NEUTRAL.search(f.id):
+            continue
+        if f.id.startswith(CR + '::is_dead'):
+            continue
+        for c in conds(f, prog.slicer):
+            flds = []
+            if c.kind == 'pred':
+                flds = getattr(c, 'direct', []) or []
+            elif c.kind == 'variant':
+                flds = place_fields(c.place)
+            if flds and flds[-1][1] == 'tombstone':
+                bad.append((f.id, c.bb))
+    rep.need('K5', 'tombstone:liveness-only-via-is_dead', not bad, 'branches on a tombstone outside is_dead (a zombie must stay alive until its top-level message ends): %s' % bad[:4])
+    for hn in ('EvmContractActor::bytecode', 'EvmContractActor::bytecode_hash'):
+        H = X.fn(hn, CR)
+        X.guard('K6b', '%s:code-hidden-only-when-dead' % hn.split('::')[-1], H, [b for b in H.ret_blocks()], m_pred('is_dead', [], False), 'code is reported unless is_dead', success_only=True) if False else \
+            rep.need('K6b', '%s:consults-is_dead' % hn.split('::')[-1], len(X.find_conds(H, m_pred('is_dead', [], True))) == 1, 'the code getters decide emptiness by is_dead', X.loc(H))
     RS = sysfn('resurrect')
     X.guard('K6b', 'resurrect:only-dead', RS, [c.bb for c in RS.calls if callee_is(SYS + 'new')(c)], m_pred('is_dead', [], True), '!is_dead => Err')
     CRT = sysfn('create')
